@@ -34,31 +34,31 @@ Qed.
 (* ------------------------------------------------------------------ content stage *)
 Definition handled (c : counters) : Z := c_sync c + c_async c + c_main c.
 Definition cnt_ok (c : counters) : Prop :=
-  0 <= c_sync c /\ 0 <= c_async c /\ 0 <= c_setup c /\ 0 <= c_main c /\ 0 <= c_err c /\ 0 <= c_end c.
+  0 <= c_sync c /\ 0 <= c_async c /\ 0 <= c_setup c /\ 0 <= c_main c /\ 0 <= c_err c /\ 0 <= c_end c /\ 0 <= c_abort c.
 
 Lemma handler_counters_spec a setup c : c = handler_counters a setup ->
-  cnt_ok c /\ handled c = (match a with AppProbe => 0 | _ => 1 end) /\ c_err c = 0 /\ c_setup c <= 1 /\ c_end c <= c_setup c.
+  cnt_ok c /\ handled c = (match a with AppProbe => 0 | _ => 1 end) /\ c_err c = 0 /\ c_setup c <= 1 /\ c_end c <= c_setup c /\ c_abort c = 0.
 Proof. intros ->. destruct a, setup; vm_compute; intuition (try discriminate; try reflexivity). Qed.
 Lemma error_counters_spec setup c : c = error_counters setup ->
-  cnt_ok c /\ handled c = 0 /\ c_err c = c_setup c /\ c_err c <= 1 /\ c_end c = 0.
+  cnt_ok c /\ handled c = 0 /\ c_err c = c_setup c /\ c_err c <= 1 /\ c_end c = 0 /\ c_abort c = 0.
 Proof. intros ->. destruct setup; vm_compute; intuition (try discriminate; try reflexivity). Qed.
 
 (* negative declared length: 400, no handler call, whatever the application and content type *)
 Lemma content_start_negative script cl ct a :
-  mounted script = Some a -> cl < 0 ->
+  mounted script = Some a -> setup_throws a = false -> cl < 0 ->
   exists cnt, content_start script cl ct = CStatus 400 cnt /\ handled cnt = 0 /\ c_err cnt <= 1.
 Proof.
-  intros M H. unfold content_start. rewrite M.
+  intros M NT H. unfold content_start. rewrite M. rewrite NT, andb_false_r.
   destruct (Z.eqb_spec cl 0); [lia|]. destruct (Z.ltb_spec cl 0); [|lia].
   eexists. split; [reflexivity|].
   match goal with |- context[error_counters ?b] => pose proof (error_counters_spec b _ eq_refl) as S end. intuition lia.
 Qed.
 (* declared length above the applicable limit: 413, no handler call *)
 Lemma content_start_too_large script cl ct a :
-  mounted script = Some a -> cl > (if is_multipart ct then mp_limit else cl_limit) ->
+  mounted script = Some a -> setup_throws a = false -> cl > (if is_multipart ct then mp_limit else cl_limit) ->
   exists cnt, content_start script cl ct = CStatus 413 cnt /\ handled cnt = 0 /\ c_err cnt <= 1.
 Proof.
-  intros M H. unfold content_start. rewrite M.
+  intros M NT H. unfold content_start. rewrite M. rewrite NT, andb_false_r.
   assert (0 < cl) by (destruct (is_multipart ct); unfold mp_limit, cl_limit in H; lia).
   destruct (Z.eqb_spec cl 0); [lia|]. destruct (Z.ltb_spec cl 0); [lia|].
   destruct (Z.gtb_spec cl (if is_multipart ct then mp_limit else cl_limit)); [|lia].
@@ -70,6 +70,7 @@ Lemma content_start_need script cl ct a n setup :
   content_start script cl ct = CNeed a n setup -> n = cl /\ 0 < n <= mp_limit /\ mounted script = Some a.
 Proof.
   unfold content_start. destruct (mounted script) as [a0|]; [|discriminate].
+  destruct (is_filter a0 && negb (cl =? 0) && setup_throws a0); [discriminate|].
   destruct (Z.eqb_spec cl 0); [discriminate|]. destruct (Z.ltb_spec cl 0); [discriminate|].
   destruct (Z.gtb_spec cl (if is_multipart ct then mp_limit else cl_limit)); [discriminate|].
   destruct (is_multipart ct && negb match a0 with AppUp => true | _ => false end); [discriminate|].
@@ -81,10 +82,13 @@ Proof. intros M. unfold content_start. rewrite M. reflexivity. Qed.
 (* every outcome of the content stage that is an error has zero handler calls and at most one on_error *)
 Lemma content_start_status script cl ct code cnt :
   content_start script cl ct = CStatus code cnt ->
-  (code = 404 \/ code = 400 \/ code = 413) /\ cnt_ok cnt /\ handled cnt = 0 /\ c_err cnt <= 1 /\ c_err cnt = c_setup cnt /\ c_end cnt = 0.
+  (code = 404 \/ code = 400 \/ code = 413 \/ code = 403 \/ code = 500) /\ cnt_ok cnt /\ handled cnt = 0 /\ c_err cnt <= 1 /\
+  c_setup cnt = c_err cnt + c_abort cnt /\ c_abort cnt <= 1 /\ c_end cnt = 0.
 Proof.
   unfold content_start. destruct (mounted script) as [a0|].
   2:{ intros E. injection E as <- <-. unfold cnt_ok, handled. cbn. lia. }
+  destruct (is_filter a0 && negb (cl =? 0) && setup_throws a0).
+  { intros E. injection E as <- <-. unfold cnt_ok, handled. cbn. destruct a0; lia. }
   destruct (Z.eqb_spec cl 0); [discriminate|].
   destruct (Z.ltb_spec cl 0).
   { intros E. injection E as <- <-.
@@ -98,6 +102,7 @@ Lemma content_start_handled script cl ct a cnt :
   content_start script cl ct = CHandled a cnt -> cl = 0 /\ cnt = handler_counters a false /\ mounted script = Some a.
 Proof.
   unfold content_start. destruct (mounted script) as [a0|]; [|discriminate].
+  destruct (is_filter a0 && negb (cl =? 0) && setup_throws a0); [discriminate|].
   destruct (Z.eqb_spec cl 0).
   { intros E. injection E as <- <-. auto. }
   destruct (Z.ltb_spec cl 0); [discriminate|].
